@@ -59,6 +59,30 @@ Proof.
   exfalso. apply (go_index_some parts j); [lia|exact G].
 Qed.
 
+(* the guard `len == 0` (an empty list is refused) protects index 0 *)
+Lemma eq0_guard_safe {A} (parts : list A) : guarded_index (0%N, 0) parts 0 <> None.
+Proof.
+  unfold guarded_index, cmp. simpl.
+  destruct (zl parts =? 0) eqn:E; simpl; [discriminate|].
+  apply Z.eqb_neq in E. destruct (go_index parts 0) eqn:G; [discriminate|].
+  exfalso. apply (go_index_some parts 0); [unfold zl in *; lia|exact G].
+Qed.
+
+(* ---- "if len(parts) <op> k { ... parts[j] ... }": the access sits INSIDE the guarded block ---- *)
+Definition guarded_index_within {A} (g : N * Z) (parts : list A) (j : Z) : option (option A) :=
+  if cmp (fst g) (zl parts) (snd g)
+  then match go_index parts j with Some x => Some (Some x) | None => None end
+  else Some None.                                              (* block skipped *)
+
+(* inside `len > 0`, index 0 exists *)
+Lemma gt0_within_safe {A} (parts : list A) : guarded_index_within (4%N, 0) parts 0 <> None.
+Proof.
+  unfold guarded_index_within, cmp. simpl.
+  destruct (0 <? zl parts) eqn:E; simpl; [|discriminate].
+  destruct (go_index parts 0) eqn:G; [discriminate|].
+  exfalso. apply (go_index_some parts 0); [apply Z.ltb_lt in E; lia|exact G].
+Qed.
+
 (* the guards as they are in the source now *)
 Lemma allowed_email_domains_safe (parts : list str) : guarded_index guard_allowed_email_domains parts 1 <> None.
 Proof. unfold guard_allowed_email_domains. apply neq_guard_safe. lia. Qed.
@@ -70,6 +94,12 @@ Lemma split_auth_header_safe (parts : list str) j : 0 <= j < 2 -> guarded_index 
 Proof. unfold guard_split_auth_header. apply neq_guard_safe. Qed.
 Lemma basic_credentials_safe (parts : list str) j : 0 <= j < 2 -> guarded_index guard_basic_credentials parts j <> None.
 Proof. unfold guard_basic_credentials. apply neq_guard_safe. Qed.
+Lemma google_id_token_safe (parts : list str) : guarded_index guard_google_id_token parts 1 <> None.
+Proof. apply (lt_guard_safe parts 2 1). lia. Qed.
+Lemma logingov_keys_safe {A} (keys : list A) : guarded_index guard_logingov_keys keys 0 <> None.
+Proof. exact (eq0_guard_safe keys). Qed.
+Lemma azure_other_mails_safe {A} (mails : list A) : guarded_index_within guard_azure_other_mails mails 0 <> None.
+Proof. exact (gt0_within_safe mails). Qed.
 Lemma parse_jwt_safe (parts : list str) : guarded_index guard_parse_jwt parts 1 <> None.
 Proof. unfold guard_parse_jwt. apply lt_guard_safe. lia. Qed.
 
